@@ -67,6 +67,10 @@ def model(case: dict) -> dict:
         for tu in o.get("early_unsub", []):
             heapq.heappush(q, (tu * G, 0, seq, "unsub", o["id"]))
             seq += 1
+    for o in case["ops"]:
+        if o.get("cancel_at") is not None:
+            heapq.heappush(q, (o["cancel_at"] * G, 0, seq, "cancel", o["id"]))
+            seq += 1
     st_: dict[str, dict] = {}
     writes: list = []
     noninterf = 0
@@ -95,6 +99,17 @@ def model(case: dict) -> dict:
             to = 30.0 if k == "services" else float(o["timeout"])
             heapq.heappush(q, (t + to, 1, seq, "timeout", arg))
             seq += 1
+        elif what == "cancel":
+            # the caller gives the operation up (task cancellation).  Pending, or completed in this very instant (the
+            # result never reaches the caller): it ends cancelled and leaves nothing subscribed.
+            s = st_.get(arg)
+            if s is not None and (s["pending"] or (s["t_end"] is not None and s["t_end"] == t and s["status"] is not None)):
+                fresh = s["pending"]
+                s["pending"] = False
+                s["status"] = "cancelled" if fresh else s["status"] + "|cancelled"
+                s["t_end"] = t
+                s["cb_on"] = False
+                s["data_on"] = False
         elif what == "unsub":
             # the application calls the function a finished connect handed back (any number of times: the later calls
             # are no-ops), while other operations are still in flight
@@ -272,6 +287,8 @@ def classify_exc(e: BaseException) -> tuple[str, object]:
         return "gatt_error", e.error.error
     if n == "BluetoothConnectionDroppedError":
         return "dropped", None
+    if n == "CancelledError":
+        return "cancelled", None
     return f"raised:{n}", repr(e)[:200]
 
 
@@ -333,6 +350,9 @@ def run_case(case: dict) -> CaseResult:
                     env.log("chunk", n=len(ch["msgs"]))
                     tr.feed(b"".join(sess.dsess.encode(build_msg(m)) for m in ch["msgs"]))
             env.loop.sim_at(t0 + ch["t"] * G, feed)
+        for o in case["ops"]:  # (after the chunks: at a shared instant the answer is processed first, then the caller cancels)
+            if o.get("cancel_at") is not None:
+                env.loop.sim_at(t0 + o["cancel_at"] * G, env.cancel, o["id"])
 
         async def cleanup():
             # call what each finished operation handed back
@@ -381,6 +401,11 @@ def run_case(case: dict) -> CaseResult:
             got, val = classify_exc(r[1])
         t_end = r[3] - t0
         classes.add("outcome_" + (got if not got.startswith("raised") else "raised"))
+        if "|" in (exp["status"] or ""):
+            # completion and the caller's cancellation fall into the same instant: either outcome, nothing left behind
+            if got not in exp["status"].split("|"):
+                res.violations.append(V(f"c16:{o['kind']}:outcome:{got.split(':')[0]}-expected-{exp['status']}", f"{label} op {oid}"))
+            continue
         if got != exp["status"]:
             res.violations.append(V(f"c16:{o['kind']}:outcome:{got.split(':')[0] if not got.startswith('raised') else got}-expected-{exp['status']}", f"{label} op {oid}: got {got} {val if got.startswith('raised') else ''} at {t_end}; expected {exp['status']} at {exp['t_end']}"))
             continue
@@ -504,6 +529,11 @@ def _case(draw, tier):
         used.add(t)
         chunks.append({"t": t, "msgs": msgs})
     chunks.sort(key=lambda c: c["t"])
+    for o in ops:
+        if draw(st.integers(0, 4)) == 2:
+            # the caller gives up: at the instant of a chunk (its answer may be in it) or anywhere
+            later = [c["t"] for c in chunks if c["t"] >= o["t"]]
+            o["cancel_at"] = draw(st.sampled_from(later)) if later and draw(st.booleans()) else o["t"] + draw(st.integers(0, 400))
     return {"noise": draw(st.integers(0, 3)) == 0, "ops": ops, "chunks": chunks}
 
 
@@ -592,6 +622,14 @@ def enumerated(tier):
                 {"t": 10, "msgs": [{"k": "conn", "addr": A, "connected": True, "mtu": 23, "error": 0}]},
                 {"t": 80, "msgs": [{"k": "conn", "addr": A, "connected": False, "mtu": 0, "error": 8}, {"k": "read", "addr": B, "handle": 1, "data": "0a"}]},
                 {"t": 100, "msgs": [{"k": "conn", "addr": A, "connected": False, "mtu": 0, "error": 8}]}]}
+    # the caller cancels an operation: before any answer, in the instant of its answer, after it
+    for kind in ("connect", "notify", "read", "write", "pair", "services", "disconnect"):
+        ans = {"connect": {"k": "conn", "addr": A, "connected": True, "mtu": 23, "error": 0}, "notify": {"k": "notify", "addr": A, "handle": 1}, "read": {"k": "read", "addr": A, "handle": 1, "data": "0c"},
+               "write": {"k": "write", "addr": A, "handle": 1}, "pair": {"k": "pair", "addr": A, "flag": True, "error": 0}, "services": {"k": "svcdone", "addr": A}, "disconnect": {"k": "conn", "addr": A, "connected": False, "mtu": 0, "error": 0}}[kind]
+        for ct in (9, 21, 35):
+            o = {"id": "op0", "kind": kind, "addr": A, "handle": 1, "t": 2, "timeout": 2, "dtimeout": 2, "flavour": "v1", "address_type": 1, "response": True, "end": "stop", "cancel_at": ct}
+            later = [{"t": 61, "msgs": [{"k": "data", "addr": A, "handle": 1, "data": "aa"}, {"k": "conn", "addr": A, "connected": False, "mtu": 0, "error": 1}]}]
+            yield {"noise": False, "ops": [o], "chunks": [{"t": 21, "msgs": [ans]}] + later}
     # the function a finished connect handed back is called, and called again, while exactly one other operation
     # listens on the same message types
     for noise in (False, True):
